@@ -601,3 +601,64 @@ def memo_not_mutated_in_place(ctx, rule):
         rebinding = [st for st in ast.walk(g.node) if isinstance(st, ast.Assign) and any(isinstance(t, ast.Attribute) and t.attr == "params" for t in st.targets)]
         if rebinding and not any(o.rule == rule and o.func == g.qualname and o.verdict == "violation" for o in ctx.obligations):
             ctx.ok(rule, g, rebinding[0], "invalidation rebinds the memo to a fresh dict")
+
+
+def slot_set_model(ctx, rule):
+    """Parameter.__setattr__ interpreted abstractly: attribute (a watched slot / an unwatched slot / `default`, which has its own
+    route) x what the slot holds (nothing yet: initialisation / another object / the identical object).
+
+    Specification: the value is stored exactly once; watchers of the attribute are notified exactly once -- with what the slot
+    held before as `old` and the assigned value as `new` -- iff there are watchers and the slot held a value before, ALSO when
+    that value is the identical object (whether an unchanged assignment reaches a watcher is the watcher's onlychanged
+    filter, decided at dispatch, not here)."""
+    from engine.absint import Interp, Obj, Unsupported
+    from engine.loader import AnalysisError
+    sa = ctx.repo.method(P + "Parameter", "__setattr__")
+    NI = Obj("NotImplemented")
+    problems, n = [], 0
+    for attribute, watched, held in [(a, w, h) for a in ("bounds", "default", "doc") for w in (True, False) for h in ("unset", "other", "identical")]:
+        value = Obj("assigned_value")
+        prev = {"unset": None, "other": Obj("previous_value"), "identical": value}[held]
+        me = Obj("parameter", name="p", owner=Obj("Owner"))
+        me.attrs["__class__"] = Obj("ParameterType", _all_slots_=["name", "default", "bounds", "doc", "watchers"])
+        me.attrs["watchers"] = {attribute: [Obj("watcher")]} if watched else {}
+        if held != "unset":
+            me.attrs[attribute] = prev
+        stores, events, onset = [], [], []
+
+        def hook(fn, args, kwargs):
+            if fn == "super().__setattr__" and len(args) == 2:
+                stores.append((args[0], args[1]))
+                me.attrs[args[0]] = args[1]
+                return None
+            if fn == "self._trigger_event":
+                events.append(tuple(args))
+                return None
+            if fn == "self._on_set":
+                onset.append(tuple(args))
+                return None
+            return NotImplemented
+        it = Interp(ctx.hier, dyn=P + "Parameter", inline=lambda m: False, call_hook=hook, globals={"NotImplemented": NI}, strict_self_calls=True)
+        try:
+            outs = it.run_all(sa, {sa.params[0]: me, sa.params[1]: attribute, sa.params[2]: value})
+        except Unsupported as e:
+            raise AnalysisError("slot-set model: absint cannot interpret Parameter.__setattr__: %s" % e)
+        if len(outs) != 1 or outs[0].imprecise or outs[0].kind != "return":
+            raise AnalysisError("slot-set model: Parameter.__setattr__ is not interpretable precisely (%s)" % (outs[0].notes[:2] if outs else "no outcome"))
+        n += 1
+        desc = "p.%s = v where the slot %s and %s watch it" % (attribute, {"unset": "is being initialised", "other": "holds another object", "identical": "already holds that very object"}[held],
+                                                               "watchers" if watched else "no watchers")
+        if stores != [(attribute, value)]:
+            problems.append("%s: stored %r, specification: the assigned value, once" % (desc, stores))
+        want = watched and attribute != "default" and held != "unset"
+        if len(events) != (1 if want else 0):
+            problems.append("%s: watchers of the attribute are notified %d time(s), specification %d%s" % (
+                desc, len(events), 1 if want else 0, " (an onlychanged=False watcher must see every assignment)" if want and held == "identical" else ""))
+        elif want and (events[0][0] != attribute or events[0][1] is not prev or events[0][2] is not value):
+            problems.append("%s: the event carries (%r, old=%r, new=%r), specification (old = what the slot held, new = the assigned value)" % (desc, events[0][0], events[0][1], events[0][2]))
+    ctx.abstract_cases += n
+    if problems:
+        ctx.fail(rule, sa, sa.node, "slot-set model: %s (%d disagreeing case(s))" % (problems[0], len(problems)), key=sa.qualname + "::slot-set-model")
+    else:
+        ctx.ok(rule, sa, sa.node, "slot-set model, %d cases (watched slot / unwatched slot / default x initialisation / another object / the identical object): stored once, "
+                                  "watchers notified once iff the slot held a value before" % n)
